@@ -11,6 +11,7 @@
 //!   probe                settle, then record (now, target stopped?, is_finished of every handle)
 //!   open                 release the gate in the target's pre_start (only with the `S|` prefix)
 //!   popen                release the gate in the target's post_stop (only with the `G` flag)
+//! Flag `D`: the timers are created through a `DerivedActorRef` (get_derived) instead of the ActorRef.
 //! Flags before a `|`: `S` = instant-spawned target whose pre_start blocks on a gate (status
 //! Starting until `open`); `G` = the target's post_stop blocks on a gate (status Stopping, ports
 //! still open, until `popen` or a kill).  The harness also records when the target left the
@@ -61,6 +62,23 @@ enum Msg {
     Tick(u64, u64),
 }
 impl ractor::Message for Msg {}
+
+/// message type of the `DerivedActorRef` entry point (flag `D`): the same timers through
+/// `impl DerivedActorRef` in ractor/src/time.rs, which are separate copies of the code
+struct DTick(u64, u64);
+impl ractor::Message for DTick {}
+impl From<DTick> for Msg {
+    fn from(d: DTick) -> Msg {
+        Msg::Tick(d.0, d.1)
+    }
+}
+impl TryFrom<Msg> for DTick {
+    type Error = ();
+    fn try_from(m: Msg) -> Result<DTick, ()> {
+        let Msg::Tick(a, b) = m;
+        Ok(DTick(a, b))
+    }
+}
 
 struct Tgt;
 impl Actor for Tgt {
@@ -144,6 +162,7 @@ fn reason_term(s: &str) -> String {
 
 enum H {
     R(JoinHandle<Result<(), MessagingErr<Msg>>>),
+    RD(JoinHandle<Result<(), MessagingErr<DTick>>>),
     U(JoinHandle<()>),
     /// the timer function itself panicked in the caller
     Panicked,
@@ -152,6 +171,7 @@ impl H {
     fn fin(&self) -> bool {
         match self {
             H::R(h) => h.is_finished(),
+            H::RD(h) => h.is_finished(),
             H::U(h) => h.is_finished(),
             H::Panicked => true,
         }
@@ -159,6 +179,7 @@ impl H {
     fn abort(&self) {
         match self {
             H::R(h) => h.abort(),
+            H::RD(h) => h.abort(),
             H::U(h) => h.abort(),
             H::Panicked => {}
         }
@@ -191,11 +212,17 @@ async fn settle(sh: &Shared, hs: &[H], tgt: &ActorRef<Msg>) {
     }
 }
 
-async fn scenario(line: &str) -> String {
+fn line_flags(line: &str) -> &str {
+    line.split_once('|').map(|x| x.0).unwrap_or("")
+}
+
+async fn scenario(line_full: &str) -> String {
+    let line = line_full;
     let (parked, gated, line) = match line.split_once('|') {
         Some((flags, rest)) => (flags.contains('S'), flags.contains('G'), rest),
         None => (false, false, line),
     };
+    let derived = line_flags(line_full).contains('D');
     let start = Instant::now();
     let sh = Arc::new(Shared::default());
     let gate = if parked { Some(Arc::new(tokio::sync::Semaphore::new(0))) } else { None };
@@ -227,6 +254,19 @@ async fn scenario(line: &str) -> String {
                 let tgt2 = tgt.clone();
                 let made = std::panic::catch_unwind(std::panic::AssertUnwindSafe(move || {
                 let tgt = tgt2;
+                if derived {
+                    let dt: ractor::DerivedActorRef<DTick> = tgt.get_derived();
+                    return match w[1] {
+                        "a" => H::RD(dt.send_after(d, move || DTick(tid, 1))),
+                        "i" => {
+                            let c = AtomicU64::new(0);
+                            H::U(dt.send_interval(d, move || DTick(tid, c.fetch_add(1, Ordering::SeqCst) + 1)))
+                        }
+                        "e" => H::U(dt.exit_after(d)),
+                        "k" => H::U(dt.kill_after(d)),
+                        x => panic!("bad timer kind {x}"),
+                    };
+                }
                 match w[1] {
                     "a" => H::R(tgt.send_after(d, move || Msg::Tick(tid, 1))),
                     "i" => {
@@ -288,6 +328,13 @@ async fn scenario(line: &str) -> String {
         } else {
             match h {
                 H::R(h) => match h.now_or_never() {
+                    Some(Ok(Ok(()))) => "HOk",
+                    Some(Ok(Err(_))) => "HErr",
+                    Some(Err(e)) if e.is_cancelled() => "HCancelled",
+                    Some(Err(_)) => "HPanic",
+                    None => "HPending",
+                },
+                H::RD(h) => match h.now_or_never() {
                     Some(Ok(Ok(()))) => "HOk",
                     Some(Ok(Err(_))) => "HErr",
                     Some(Err(e)) if e.is_cancelled() => "HCancelled",
